@@ -108,6 +108,22 @@ func selfTest() error {
 		{`[` + req + `,{"jsonrpc":"2.0","method":"echo","params":["u"]}]`, `[` + okOut + `]`, []call{{"echo", `["u"]`}, subCall}, ""},
 		{`[` + req + `,{"jsonrpc":"2.0","method":"echo","params":["u"]}]`, `[` + okOut + `]`, []call{subCall}, "missing-invocation"},
 		{`[{"jsonrpc":"2.0","method":"echo","params":["u"]}]`, `[]`, []call{{"echo", `["u"]`}}, "malformed-output:empty-array"},
+		// decoder-specific parameters: rejected, or accepted consistently
+		{`{"jsonrpc":"2.0","method":"sub","params":["t",null,3],"id":7}`, `{"jsonrpc":"2.0","error":{"code":-32602,"message":"x"},"id":7}`, nil, ""},
+		{`{"jsonrpc":"2.0","method":"sub","params":["t",null,3],"id":7}`, `{"jsonrpc":"2.0","result":{"m":"sub","a":["t",0,3]},"id":7}`, []call{{"sub", `["t",0,3]`}}, ""},
+		{`{"jsonrpc":"2.0","method":"sub","params":["t",null,3],"id":7}`, `{"jsonrpc":"2.0","result":{"m":"sub","a":["t",0,3]},"id":7}`, []call{{"sub", `["t",1,3]`}}, "args-mismatch"},
+		{`{"jsonrpc":"2.0","method":"sub","params":["t",null,3],"id":7}`, `{"jsonrpc":"2.0","result":{"m":"sub","a":["t",0,3]},"id":8}`, []call{{"sub", `["t",0,3]`}}, "wrong-"},
+		{`{"jsonrpc":"2.0","method":"sub","params":["t",null,3],"id":7}`, `{"jsonrpc":"2.0","error":{"code":-32602,"message":"x"},"id":7}`, []call{{"sub", `["t",0,3]`}}, "handler-invoked"},
+		{`{"jsonrpc":"2.0","method":"sub","params":["t",null,3]}`, ``, []call{{"sub", `["t",0,3]`}}, ""},
+		{`{"jsonrpc":"2.0","method":"sub","params":["t",null,3]}`, ``, nil, ""},
+		{`{"jsonrpc":"2.0","method":"sub","params":["t",null,3]}`, ``, []call{{"sub", `["t",0,3]`}, {"sub", `["t",0,3]`}}, "handler-invoked-more-than-once"},
+		// ambiguous envelope: any consistent reading
+		{`{"jsonrpc":"2.0","method":"ping","id":1,"id":2}`, `{"jsonrpc":"2.0","result":"pong","id":2}`, []call{{"ping", `[]`}}, ""},
+		{`{"jsonrpc":"2.0","method":"ping","id":1,"id":2}`, `{"jsonrpc":"2.0","result":"pong","id":1}`, []call{{"ping", `[]`}}, ""},
+		{`{"jsonrpc":"2.0","method":"ping","id":1,"id":2}`, `{"jsonrpc":"2.0","result":"pong","id":3}`, []call{{"ping", `[]`}}, "wrong-id"},
+		{`{"jsonrpc":"2.0","METHOD":"ping","id":1}`, `{"jsonrpc":"2.0","result":"pong","id":1}`, []call{{"ping", `[]`}}, ""},
+		{`{"jsonrpc":"2.0","METHOD":"ping","id":1}`, `{"jsonrpc":"2.0","error":{"code":-32600,"message":"x"},"id":1}`, nil, ""},
+		{`{"jsonrpc":"2.0","METHOD":"ping","id":1}`, `{"jsonrpc":"2.0","error":{"code":-32600,"message":"x"},"id":1}`, []call{{"ping", `[]`}}, "handler-invoked"},
 		{`{"jsonrpc":"2.0","method":"nullres","params":["t"],"id":1}`, `{"jsonrpc":"2.0","result":null,"id":1}`, []call{{"nullres", `["t"]`}}, ""},
 	}
 	for i, c := range cases {
